@@ -34,6 +34,7 @@ def bounds_cases(tier):
     base += SC.two_statement_cases(tier, ('c14b',), bound=0)
     base += SC.three_field_cases(tier, ('c14b',), bound=0)
     base += SC.multi_statement_cases(tier, ('c14b',), bound=0)[::4]
+    base += SC.deep_expr_cases(tier, ('c14b',), bound=0)
     base += SC.enum_cases(tier, ('c14b',), bound=0)
     for c in base:
         f = {x[0]: (x[1], x[2]) for x in c['prog']['fields']}
